@@ -63,6 +63,10 @@ def child_main(conn, idx, op, cfg, directory, key, gate_all):
         def computer():
             state['computed'] += 1
             state['n'] += 1
+            if op == 'fraise':
+                ctl.note('computed', None)
+                from .props.c15 import ComputeBoom
+                raise ComputeBoom(f'computer of caller {idx} fails')
             tok = ['v', idx, 100 * (idx + 1) + state['n'], 'p' * (((idx + 3) * 37 * state['n']) % 90)]
             v = make_value(kind, tok)
             state['computed_value'] = tcanon(v)
@@ -74,7 +78,7 @@ def child_main(conn, idx, op, cfg, directory, key, gate_all):
             if op == 'get':
                 r = cache.get(key)
             else:
-                r = cache.get_or_compute(key, computer, force=(op == 'force'))
+                r = cache.get_or_compute(key, computer, force=(op in ('force', 'fraise')))
             result = 'NO_VALUE' if r is tc.NO_VALUE else tcanon(r)
         except BaseException as e:  # noqa
             exc = f'{type(e).__name__}: {e}'[:300]
@@ -129,7 +133,8 @@ def run_schedule_processes(cfg, chooser, directory, key, gate_all=False):
             elif msg[0] == 'note':
                 kind, detail = msg[1], msg[2]
                 if kind == 'computed':
-                    produced.append(detail)
+                    if detail is not None:
+                        produced.append(detail)
                     detail = None
                 events.append((step, i, kind, detail))
                 if kind == 'released':
